@@ -204,7 +204,7 @@ func (c *Chain) baseOptions() []func(*baseapp.BaseApp) {
 	case "everything":
 		opts = append(opts, baseapp.SetPruning(pruningtypes.NewPruningOptions(pruningtypes.PruningEverything)))
 	case "custom":
-		opts = append(opts, baseapp.SetPruning(pruningtypes.NewCustomPruningOptions(3, 2)))
+		opts = append(opts, baseapp.SetPruning(pruningtypes.NewCustomPruningOptions(3, 10)))
 	}
 	if c.Opts.IAVLCache > 0 {
 		opts = append(opts, baseapp.SetIAVLCacheSize(c.Opts.IAVLCache))
@@ -335,6 +335,16 @@ func (c *Chain) emptyBlock() {
 
 // NewFromAppState starts a fresh node from an exported application state (genesis import).
 func NewFromAppState(cfg GenesisCfg, opts NodeOpts, appState []byte, startTime time.Time) (c *Chain, err error) {
+	return newFromAppState(cfg, opts, appState, startTime, true)
+}
+
+// ImportAppState is NewFromAppState without the extra empty block: the first block
+// of the new chain is produced by the caller (so that its time line can follow a twin).
+func ImportAppState(cfg GenesisCfg, opts NodeOpts, appState []byte, startTime time.Time) (c *Chain, err error) {
+	return newFromAppState(cfg, opts, appState, startTime, false)
+}
+
+func newFromAppState(cfg GenesisCfg, opts NodeOpts, appState []byte, startTime time.Time, firstBlock bool) (c *Chain, err error) {
 	ensureConfig()
 	c = &Chain{Cfg: cfg, Opts: opts}
 	if err := os.MkdirAll(ScratchRoot(), 0o755); err != nil {
@@ -357,7 +367,11 @@ func NewFromAppState(cfg GenesisCfg, opts NodeOpts, appState []byte, startTime t
 	c.valAddr = c.valPub.Address()
 	defer func() {
 		if r := recover(); r != nil {
-			err = fmt.Errorf("panic importing genesis: %v", r)
+			msg := fmt.Sprint(r)
+			if len(msg) > 600 {
+				msg = msg[:600]
+			}
+			err = fmt.Errorf("panic importing genesis: %s", msg)
 			c.Close()
 			c = nil
 		}
@@ -374,7 +388,9 @@ func NewFromAppState(cfg GenesisCfg, opts NodeOpts, appState []byte, startTime t
 	c.App.Commit()
 	c.Height = c.App.LastBlockHeight()
 	c.Now = startTime
-	c.emptyBlock()
+	if firstBlock {
+		c.emptyBlock()
+	}
 	return c, nil
 }
 
